@@ -206,8 +206,35 @@ def run(tier, seed):
             sub = "%014d" % (20260930000000 + n)
             if n % 50 == 7:
                 sub = rng.pick(["", "."])
+            # what sits at <o>/latest from earlier runs: nothing, the link of a run that is still there, the link of
+            # an erased run (--clear, upload, by hand), a file, an empty or a non-empty directory
+            prev = rng.pick(["absent"] * 4 + ["live", "live", "dangling", "dangling", "dangling", "file", "emptydir", "fulldir"])
+            odir = os.path.normpath(os.path.join(cwd, o))
+            slot = os.path.join(odir, "latest")
+            if os.path.lexists(slot):       # an output directory shared with an earlier case: its link is the previous state
+                prev = (("live" if os.path.exists(slot) else "dangling") if os.path.islink(slot) else
+                        ("fulldir" if os.listdir(slot) else "emptydir") if os.path.isdir(slot) else "file")
+            elif prev != "absent":
+                os.makedirs(odir, exist_ok=True)
+                if prev in ("live", "dangling"):
+                    os.symlink("20250101000000", slot)
+                    if prev == "live":
+                        os.makedirs(os.path.join(odir, "20250101000000"))
+                elif prev == "file":
+                    open(slot, "w").write("x")
+                else:
+                    os.makedirs(slot + ("/inner" if prev == "fulldir" else ""))
+            rep.count("prepareDirs:previous latest " + prev)
             r = impl.call("prepdirs", Args={"Text": MINI}, Cwd=cwd, DataDir=o, SubDir=sub)
             m = model.ask("C12 dirs new %s %s %s" % (hexs(cwd), hexs(o), hexs(sub)))
+            mslot = model.ask("C12 slot " + prev)
+            if mslot == "error" or (r.get("err") and prev == "fulldir"):
+                if not (mslot == "error" and r.get("err")):
+                    kdis.append({"op": "prepareDirs", "o": o, "previous latest": prev, "impl err": r.get("err"), "model": mslot})
+                continue
+            if mslot != "replaced":
+                kdis.append({"op": "prepareDirs slot", "previous latest": prev, "model": mslot})
+                continue
             shape = ("absolute" if o.startswith("/") else "dot" if o == "." else "nested" if "/" in o.strip("/") else "relative")
             rep.case(("dirs", o, sub))
             rep.count("prepareDirs:-o " + shape + (":dotdot" if ".." in parts else "") + (":no-subdir" if sub in ("", ".") else ""))
@@ -221,7 +248,7 @@ def run(tier, seed):
                              "model": {"target": mm["target"], "resolved": mm["resolved"], "absrun": mm["absrun"]}})
             # O: <o>/latest resolves to the run directory
             if r.get("resolved") != r.get("absRun") or not r.get("runIsDir"):
-                link_fail.append({"call": "prepareDirs in-process", "cwd": cwd, "-o": o, "run id": sub, "link text": r.get("linkText"),
+                link_fail.append({"call": "prepareDirs in-process", "cwd": cwd, "-o": o, "run id": sub, "previous latest": prev, "link text": r.get("linkText"),
                                   "resolves to": r.get("resolved") or r.get("resolveErr"), "run directory": r.get("absRun"),
                                   "tag": {"kind": "latest", "outdir": "absolute" if o.startswith("/") else "relative"}})
         rep.sample({"prepareDirs": {"-o": shapes[1], "model": model.ask("C12 dirs new %s %s %s" % (hexs("/w"), hexs(shapes[1]), hexs("20260930000001")))}})
